@@ -106,7 +106,7 @@ BodyFaultOk(e) == /\ e.headOk                                         \* the hea
                        [] e.what \in {"missing", "removed_after_head"} -> e.bodyLen = 0 /\ e.res = "ErrorReadingFile"
 \* connection level: the failed write, then a 500 as handle_http_conn would send
 ConnFaultOk(e) ==
-  IF e.what = "ok"
+  IF e.what \in {"ok", "long"}                                       \* ("long": the body file holds more than was declared)
   THEN e.r1 = "Ok" /\ e.ws1 = "None" /\ e.r2 = "ResponseAlreadySent" /\ e.statusLines = 1 /\ e.firstCode = 200 /\ e.bodyIsPrefix
   ELSE IF e.what = "socket"                                           \* the peer went away while the response was being written
   THEN /\ e.r1 = "Disconnected" /\ e.ws1 = "Shutdown"                 \* bytes were sent: the write side is shut ...
